@@ -1,2 +1,539 @@
-def add_obligations(pack, ss, tier):
-    pass
+"""Function part of C03: Jacobian triplet addressing, pattern construction, value update and accumulation order."""
+import ast
+import z3
+
+from pyvc.symex import Contract, Loop, spec, View, to_z3, as_real
+from pyvc.symval import (TArr, TBool, TInt, TObj, TOpaque, TReal, TSeq, TStr, TConst, NR, fresh, I, R, Bo, Func, Opaque, Module, Ref,
+                         ArrC, ListC, DictC, MapC, TMap, Unsupported, Obj, TColl, Coll, SeqC)
+from contracts.packutil import run_contracts
+
+FM = 'andes/core/model/model.py'
+FS = 'andes/system.py'
+FD = 'andes/variables/dae.py'
+JAC = ('fx', 'fy', 'gx', 'gy')
+JAC_FULL = ('fx', 'fxc', 'fy', 'fyc', 'gx', 'gxc', 'gy', 'gyc')
+K = TStr.sort
+
+
+def _full_slice(sl):
+    return isinstance(sl, ast.Slice) and sl.lower is None and sl.upper is None and sl.step is None
+
+
+def model_j_update(pid):
+    """Model.j_update: for every Jacobian name, entry #idx of the generated function's result is stored IN PLACE into the
+    idx-th value array of the model's triplets for the same name (the sparse pattern holds these very arrays)."""
+    def jfunc(j):
+        def h(ex, st, args, kw, node):
+            pk = st.ghost['j_args'][j]
+            ok = len(args) == 1 and isinstance(args[0], tuple) and args[0][0] == 'star' and args[0][1] is pk and not kw
+            ex.oblige(st, 'pre@call:calls.j[%s]:called-with-*self.j_args[%s]' % (j, j), z3.BoolVal(bool(ok)), {})
+            return ('ret', j)
+        return h
+
+    def getitem(ex, st, args, kw, node):
+        base, sl = args
+        if isinstance(base, tuple) and base and base[0] in ('ret', 'tripl'):
+            return (base[0] + '_elem', base[1], to_z3(ex.ev(sl, st)))
+        return NotImplemented
+
+    def setitem(ex, st, args, kw, node):
+        base, sl, value = args
+        ok = (isinstance(base, tuple) and base[0] == 'tripl_elem' and isinstance(value, tuple) and value[0] == 'ret_elem'
+              and base[1] == value[1] == st.env['jname'] and _full_slice(sl))
+        same = z3.And(base[2] == value[2], base[2] == to_z3(st.env['idx'])) if ok else z3.BoolVal(False)
+        ex.oblige(st, 'pre@store:triplets.vjac[<j>][#idx][:]=result[#idx](same-name,same-position,in-place)', same, {})
+        st.ghost['stored'] = True
+        return None
+
+    def reset(v):
+        v.st.ghost['stored'] = False
+        v.st.ghost['in_iter'] = True
+        return True
+
+    def stored(v):
+        if not v.st.ghost.get('in_iter'):
+            return True
+        s_ = v.st.ghost['stored']
+        return s_ if z3.is_expr(s_) else z3.BoolVal(bool(s_))
+    sch = {}
+    for j in JAC:
+        sch['self.calls.vjac_%s' % j] = TSeq()
+    c = Contract(FM, 'Model.j_update', pid=pid, params={'self': TObj()}, schema=sch, ghost_init={'stored': False},
+                 calls=dict([('calls.j.%s' % j, jfunc(j)) for j in JAC] + [('__getitem__', getitem), ('__setitem__', setitem)]),
+                 loops={1: Loop(inv=[('every-generated-entry-is-stored', stored)], assume=[('reset', reset)],
+                                frame=['$idx', '$fun', 'ghost:stored', 'ghost:in_iter'])},
+                 ensures=[], modifies=[])
+    c.star_ok = True
+    c.merge = False
+
+    def pre_state(st):
+        packs = {j: Opaque(fresh('j_args_' + j, z3.DeclareSort('ArgList'))) for j in JAC}
+        st.ghost['j_args'] = packs
+        st.heap['self.calls.j'] = st.new_ref(DictC({j: Func('calls.j.%s' % j) for j in JAC}), 'calls.j')
+        st.heap['self.j_args'] = st.new_ref(DictC(dict(packs)), 'j_args')
+        st.heap['self.calls.vjac'] = st.new_ref(DictC({j: st.load('self.calls.vjac_%s' % j) for j in JAC}), 'calls.vjac')
+        st.heap['self.triplets.vjac'] = st.new_ref(DictC({j: ('tripl', j) for j in JAC}), 'triplets.vjac')
+        st.ghost.pop('in_iter', None)
+    c.pre_state = pre_state
+    return c
+
+
+def jac_eq_var_name(pid):
+    """Model._jac_eq_var_name: row name = name of equation #ijac[j][idx] counted within the states (f) or within the algebraics
+    (g) -- all_vars lists states first; column name = name of variable #jjac[j][idx] counted over all variables."""
+    NS = fresh('n_states', I)
+    NAMES = fresh('all_var_names', z3.ArraySort(I, K))
+    NV = fresh('n_vars', I)
+    ROW, COL = fresh('row', I), fresh('col', I)
+
+    def keys(ex, st, args, kw, node):
+        return st.new_ref(SeqC(NAMES, NV), 'names')
+
+    def getitem(ex, st, args, kw, node):
+        base, sl = args
+        if isinstance(base, tuple) and base and base[0] in ('ijac', 'jjac'):
+            if len(base) == 1:
+                return (base[0], ex.ev(sl, st))
+            ok = base[1] == st.env['j_name'] and to_z3(ex.ev(sl, st)) is to_z3(st.env['idx'])
+            st.ghost['lookup_ok'] = st.ghost['lookup_ok'] and bool(ok)
+            return ROW if base[0] == 'ijac' else COL
+        return NotImplemented
+
+    def mk(jn):
+        off = z3.IntVal(0) if jn[0] == 'f' else NS
+        lim = NS if jn[0] == 'f' else NV - NS
+
+        def post(old, new, res):
+            if not (isinstance(res, tuple) and len(res) == 2):
+                return False
+            return z3.And(to_z3(res[0]) == NAMES[off + ROW], to_z3(res[1]) == NAMES[COL], z3.BoolVal(new.st.ghost['lookup_ok']))
+        c = Contract(FM, 'Model._jac_eq_var_name', pid=pid, params={'self': TObj(), 'j_name': TConst(jn), 'idx': TInt()},
+                     schema={'self.cache.states_and_ext': TColl()}, ghost_init={'lookup_ok': True},
+                     requires=[('shape', lambda v: z3.And(v.z('self.cache.states_and_ext.size') == NS if False else True, NS >= 0, NV >= NS,
+                                                          ROW >= 0, ROW < lim, COL >= 0, COL < NV))],
+                     calls={'list': lambda ex, st, a, k, n: a[0], 'self.cache.all_vars.keys': keys, '__getitem__': getitem,
+                            'len': None},
+                     ensures=[('row=name-of-equation-within-its-class;col=name-of-variable[%s]' % jn, post)], modifies=[])
+        c.tag = jn
+
+        def pre_state(st):
+            st.heap['self.calls.ijac'] = ('ijac',)
+            st.heap['self.calls.jjac'] = ('jjac',)
+            coll = st.load('self.cache.states_and_ext')
+            st.assume(coll.n == NS)
+        c.pre_state = pre_state
+        return c
+    return [mk('fx'), mk('gy'), mk('gxc'), mk('fyc')]
+
+
+def _seq(st, v):
+    c = st.content(v)
+    return (c.arr if isinstance(c, SeqC) else c.vals), c.n
+
+
+def system_store_sparse_pattern(pid):
+    """System.store_sparse_pattern: per Jacobian name the pattern lists (ii, jj, vv) grow in lockstep by exactly the rows, columns
+    of every model triplet, with value 0 for variable entries and the declared constant for constant entries; gy starts with
+    the full diagonal (k, k, 0), k < m; the lists are then stored under that name and the template built from them."""
+    M = 'models.$e'
+    sch = {'models': TColl(), 'self.dae.m': TInt(), 'self.dae.n': TInt()}
+    for j in JAC_FULL:
+        T = '%s.triplets.%s' % (M, j)
+        sch[T] = TColl()
+        sch[T + '.$e.f0'] = TArr(kind='int')
+        sch[T + '.$e.f1'] = TArr(kind='int')
+        sch[T + '.$e.f2'] = TArr() if not j.endswith('c') else TReal()
+
+    def zip_ijv(ex, st, args, kw, node):
+        j = args[0]
+        return st.load('%s.triplets.%s' % (M, j))
+
+    def lists(st):
+        return [st.env[n] for n in ('ii', 'jj', 'vv')]
+
+    def frame_lists(st):
+        return [st.env[n].loc for n in ('ii', 'jj', 'vv') if isinstance(st.env.get(n), Ref)]
+
+    def lockstep(v):
+        (_, ni), (_, nj), (_, nv) = [_seq(v.st, r) for r in lists(v.st)]
+        return z3.And(ni == nj, nj == nv)
+
+    def diag(v):
+        if v.st.env['jname'] != 'gy':
+            return True
+        (ai, ni), (aj, nj), (av, nv) = [_seq(v.st, r) for r in lists(v.st)]
+        m = v.z('self.dae.m')
+        k = fresh('k', I)
+        return z3.And(ni >= m, z3.ForAll([k], z3.Implies(z3.And(k >= 0, k < m), z3.And(ai[k] == k, aj[k] == k, av[k] == 0))))
+
+    def snap(const):
+        def f(v):
+            v.st.ghost['s0'] = [_seq(v.st, r) for r in lists(v.st)]
+            v.st.ghost['in_iter'] = True
+            T = '%s.triplets.%s.$e' % (M, v.st.env['jname'] + ('c' if const else ''))
+            # guaranteed by Model.store_sparse_pattern (raises ValueError otherwise)
+            return v.arr(T + '.f0').n == v.arr(T + '.f1').n
+        return f
+
+    def grown(const):
+        def f(v):
+            if not v.st.ghost.get('in_iter'):
+                return True
+            j = v.st.env['jname'] + ('c' if const else '')
+            T = '%s.triplets.%s.$e' % (M, j)
+            row, col = v.arr(T + '.f0'), v.arr(T + '.f1')
+            (ai0, ni0), (aj0, nj0), (av0, nv0) = v.st.ghost['s0']
+            (ai, ni), (aj, nj), (av, nv) = [_seq(v.st, r) for r in lists(v.st)]
+            k = fresh('k', I)
+            val = v.z(T + '.f2') if const else z3.RealVal(0)
+            keep = z3.ForAll([k], z3.Implies(z3.And(k >= 0, k < ni0), z3.And(ai[k] == ai0[k], aj[k] == aj0[k], av[k] == av0[k])))
+            added = z3.ForAll([k], z3.Implies(z3.And(k >= 0, k < row.n),
+                                              z3.And(ai[ni0 + k] == row.vals[k], aj[nj0 + k] == col.vals[k], av[nv0 + k] == val)))
+            return z3.And(ni == ni0 + row.n, nj == nj0 + row.n, nv == nv0 + row.n, keep, added)
+        return f
+
+    def call_models(ex, st, args, kw, node):
+        ok = args[0] == 'store_sparse_pattern' and args[1] is st.env['models']
+        st.ghost['order'] = st.ghost['order'] + [('call_models', bool(ok))]
+        return None
+
+    def same(st, a, b):
+        (x, n), (y, m) = _seq(st, a), _seq(st, b)
+        k = fresh('k', I)
+        return z3.And(n == m, z3.ForAll([k], z3.Implies(z3.And(k >= 0, k < n), x[k] == y[k])))
+
+    def store_ijv(ex, st, args, kw, node):
+        j = st.env['jname']
+        ok = args[0] == j and all(isinstance(a, Ref) for a in args[1:4])
+        ex.oblige(st, 'pre@call:dae.store_sparse_ijv:<name>,rows,cols,values-in-this-order',
+                  z3.And(z3.BoolVal(bool(ok)), *[z3.BoolVal(a is st.env[n]) for a, n in zip(args[1:4], ('ii', 'jj', 'vv'))]), {})
+        st.ghost['order'] = st.ghost['order'] + [('store', j)]
+        return None
+
+    def build(ex, st, args, kw, node):
+        st.ghost['order'] = st.ghost['order'] + [('build', args[0])]
+        return None
+
+    def post(old, new, res):
+        want = [('call_models', True)]
+        for j in JAC:
+            want += [('store', j), ('build', j)]
+        return z3.BoolVal(new.st.ghost['order'] == want)
+    inner_frame = ['$row', '$col', '$val', frame_lists, 'ghost:s0', 'ghost:in_iter']
+    c = Contract(FS, 'System.store_sparse_pattern', pid=pid, params={'self': TObj(), 'models': TColl()}, schema=sch,
+                 ghost_init={'order': []},
+                 requires=[('m>=0', lambda v: v.z('self.dae.m') >= 0)],
+                 calls={'self.call_models': call_models, 'list': lambda ex, st, a, k, n: st.new_ref(SeqC(z3.K(I, z3.RealVal(0)), z3.IntVal(0)), 'lst'),
+                        M + '.triplets.zip_ijv': zip_ijv, 'self.dae.store_sparse_ijv': store_ijv, 'self.dae.build_pattern': build},
+                 globals_={'jac_names': JAC},
+                 loops={1: Loop(inv=[('rows,cols,values-in-lockstep', lockstep), ('gy-diagonal-reserved', diag)],
+                                frame=['$mdl', '$row', '$col', '$val', M + '.*', frame_lists, 'ghost:s0', 'ghost:in_iter']),
+                        2: Loop(inv=[('rows,cols,values-in-lockstep', lockstep), ('gy-diagonal-reserved', diag),
+                                     ('variable-triplet-appended:(row,col,0)', grown(False))], assume=[('triplet-rows-and-cols-have-equal-length', snap(False))],
+                                frame=inner_frame),
+                        3: Loop(inv=[('rows,cols,values-in-lockstep', lockstep), ('gy-diagonal-reserved', diag),
+                                     ('constant-triplet-appended:(row,col,const)', grown(True))], assume=[('triplet-rows-and-cols-have-equal-length', snap(True))],
+                                frame=inner_frame)},
+                 ensures=[('models-first;then-per-name:store-lists,build-template', post)], modifies=[])
+    c.merge = False
+
+    def pre_state(st):
+        st.ghost.pop('in_iter', None)
+    c.pre_state = pre_state
+    return c
+
+
+def model_store_sparse_pattern(pid):
+    """Model.store_sparse_pattern: triplets are cleared first; with devices and addresses present, for every full Jacobian name
+    and every generated entry #idx one triplet is appended under that name: rows = addresses of the equation's variable,
+    columns = addresses of the differentiated variable (names from _jac_eq_var_name(name, idx)), values = the declared constant
+    repeated (constant names) or zeros (variable names), one per element of the row variable."""
+    sch = {'self.n': TInt(), 'self.flags.address': TBool(), 'self.flags.j_num': TBool(), 'self.blocks': TColl(),
+           'self.blocks.$e.flags.j_num': TBool(), 'rowvar.a': TArr(kind='int'), 'colvar.a': TArr(kind='int'), 'rowvar.n': TInt(),
+           'self.class_name': TStr()}
+    for j in JAC_FULL:
+        sch['self.calls.vjac_%s' % j] = TSeq()
+    NAME = z3.DeclareSort('VarName')
+
+    def names(ex, st, args, kw, node):
+        ok = args[0] == st.env['j_name'] and to_z3(args[1]) is to_z3(st.env['idx'])
+        ex.oblige(st, 'pre@call:_jac_eq_var_name(<name>,#idx)', z3.BoolVal(bool(ok)), {})
+        r, c_ = Opaque(fresh('row_name', NAME)), Opaque(fresh('col_name', NAME))
+        st.ghost['names'] = (r, c_)
+        return (r, c_)
+
+    def objdict(ex, st, args, kw, node):
+        k = args[1]
+        r, c_ = st.ghost.get('names', (None, None))
+        if k is r:
+            return Obj('rowvar')
+        if k is c_:
+            return Obj('colvar')
+        return NotImplemented
+
+    def append(ex, st, args, kw, node):
+        j = st.env['j_name']
+        jn, rows, cols, value = args
+        ok = jn == j and isinstance(rows, Ref) and rows.loc == st.load('rowvar.a').loc and isinstance(cols, Ref) \
+            and cols.loc == st.load('colvar.a').loc and isinstance(value, Ref)
+        goal = z3.BoolVal(bool(ok))
+        if ok:
+            c = st.content(value)
+            n = to_z3(st.load('rowvar.n'))
+            k = fresh('k', I)
+            want = to_z3(st.env['val']) if j.endswith('c') else z3.RealVal(0)
+            goal = z3.And(c.n == n, z3.ForAll([k], z3.Implies(z3.And(k >= 0, k < n), c.vals[k] == want)))
+        ex.oblige(st, 'pre@call:append_ijv(<name>,row.a,col.a,const*ones|zeros)', goal, {})
+        st.ghost['appended'] = True
+        return None
+
+    def reset(v):
+        v.st.ghost['appended'] = False
+        v.st.ghost['in_iter'] = True
+        return True
+
+    def appended(v):
+        if not v.st.ghost.get('in_iter'):
+            return True
+        a = v.st.ghost['appended']
+        return a if z3.is_expr(a) else z3.BoolVal(bool(a))
+
+    def order(tag):
+        def h(ex, st, args, kw, node):
+            st.ghost['order'] = st.ghost['order'] + [tag]
+            return None
+        return h
+
+    def post(old, new, res):
+        o = new.st.ghost['order']
+        return z3.BoolVal(len(o) >= 1 and o[0] == 'clear' and o.count('clear') == 1)
+    loops = {0: Loop(inv=[], frame=['$instance', 'self.blocks.$e.*', 'ghost:order'])}
+    for i in range(8):
+        loops[2 + i] = None
+    c = Contract(FM, 'Model.store_sparse_pattern', pid=pid, params={'self': TObj()}, schema=sch,
+                 ghost_init={'order': [], 'appended': False},
+                 requires=[('n>=0', lambda v: z3.And(v.z('self.n') >= 0, v.z('rowvar.n') >= 0))],
+                 calls={'self.triplets.clear_ijv': order('clear'), 'self.j_numeric': order('j_numeric'),
+                        'self.blocks.$e.j_numeric': order('block.j_numeric'), 'self.triplets.merge': order('merge'),
+                        'self._jac_eq_var_name': names, '__objdict__': objdict, 'self.triplets.append_ijv': append,
+                        'logger.error': lambda ex, st, a, k, n: None},
+                 globals_={'jac_full_names': JAC_FULL},
+                 loops={0: Loop(inv=[], frame=['$instance', 'self.blocks.$e.*', 'ghost:order']),
+                        2: Loop(inv=[('one-triplet-per-generated-entry', appended)], assume=[('reset', reset)],
+                                frame=['$idx', '$val', '$row_name', '$col_name', '$row_idx', '$col_idx', '$n_elem', '$value', 'rowvar.*',
+                                       'colvar.*', 'ghost:names', 'ghost:appended', 'ghost:in_iter'])},
+                 ensures=[('triplets-cleared-first', post)],
+                 raises={'ValueError': [('only-when-row-and-column-address-lengths-differ',
+                                         lambda o, n, p: n.arr('rowvar.a').n != n.arr('colvar.a').n)]},
+                 modifies=['rowvar.*', 'colvar.*'])
+    c.merge = False
+
+    def pre_state(st):
+        st.heap['self.calls.vjac'] = st.new_ref(DictC({j: st.load('self.calls.vjac_%s' % j) for j in JAC_FULL}), 'calls.vjac')
+        st.ghost.pop('in_iter', None)
+    c.pre_state = pre_state
+    return c
+
+
+MAT = z3.DeclareSort('SparseMatrix')
+
+
+def system_j_update(pid):
+    """System.j_update: model values first, then the matrices are reset to the stored pattern, then every triplet of every model
+    is accumulated exactly once into the matrix of its own name (values, rows, columns in kvxopt's order; full matrix size when
+    rebuilding), then the islanded-bus patch."""
+    M = 'models.$e'
+    sch = {'models': TColl(), 'self.config.ipadd': TBool(), 'self.dae.t': TReal()}
+    for j in JAC:
+        T = '%s.triplets.%s' % (M, j)
+        sch[T] = TColl()
+        sch[T + '.$e.f0'] = TArr(kind='int')
+        sch[T + '.$e.f1'] = TArr(kind='int')
+        sch[T + '.$e.f2'] = TArr()
+        sch['self.dae.' + j] = TOpaque('SparseMatrix')
+
+    def order(tag):
+        def h(ex, st, args, kw, node):
+            st.ghost['order'] = st.ghost['order'] + [tag if not callable(tag) else tag(st, args)]
+            return None
+        return h
+
+    def trip(st):
+        T = '%s.triplets.%s.$e' % (M, st.env['j_name'])
+        return [st.load(T + '.f%d' % i) for i in range(3)]
+
+    def is_cur(st, rows, cols, vals):
+        r, c_, v_ = trip(st)
+        return bool(isinstance(rows, Ref) and isinstance(cols, Ref) and isinstance(vals, Ref) and rows.loc == r.loc
+                    and cols.loc == c_.loc and vals.loc == v_.loc)
+
+    def ipadd(ex, st, args, kw, node):
+        base, vals, rows, cols = args
+        cur = st.load('self.dae.' + st.env['j_name'])
+        ok = isinstance(base, Opaque) and base.term.eq(cur.term) and is_cur(st, rows, cols, vals)
+        ex.oblige(st, 'pre@call:ipadd(values,rows,cols)-into-dae.<name>', z3.BoolVal(bool(ok)), {})
+        st.ghost['acc'] = st.ghost['acc'] + 1
+        return None
+
+    def spm(ex, st, args, kw, node):
+        return ('spm',) + tuple(args)
+
+    def binop(ex, st, args, kw, node):
+        op, a, b = args
+        if isinstance(b, tuple) and b and b[0] == 'spm':
+            cur = st.load('self.dae.' + st.env['j_name'])
+            ok = (isinstance(op, ast.Add) and isinstance(a, Opaque) and a.term.eq(cur.term) and len(b) == 6 and is_cur(st, b[2], b[3], b[1])
+                  and b[4] == ('size', st.env['j_name']) and b[5] == 'd')
+            ex.oblige(st, 'pre@binop:dae.<name>+=spmatrix(values,rows,cols,size-of-<name>)', z3.BoolVal(bool(ok)), {})
+            st.ghost['acc'] = st.ghost['acc'] + 1
+            return Opaque(fresh('mat', MAT))
+        return NotImplemented
+
+    def reset(v):
+        v.st.ghost['acc'] = 0
+        v.st.ghost['in_iter'] = True
+        return True
+
+    def once(v):
+        if not v.st.ghost.get('in_iter'):
+            return True
+        a = v.st.ghost['acc']
+        return a == 1 if z3.is_expr(a) else z3.BoolVal(a == 1)
+
+    def post(old, new, res):
+        return z3.BoolVal(new.st.ghost['order'] == [('call_models', True), 'restore_sparse', 'j_islands'])
+    mats = ['self.dae.' + j for j in JAC]
+    c = Contract(FS, 'System.j_update', pid=pid, params={'self': TObj(), 'models': TColl(), 'info': TConst(None)}, schema=sch,
+                 ghost_init={'order': [], 'acc': 0},
+                 calls={'self.call_models': order(lambda st, a: ('call_models', a[0] == 'j_update' and a[1] is st.env['models'])),
+                        'self.dae.restore_sparse': order('restore_sparse'), 'self.j_islands': order('j_islands'),
+                        'self.dae.get_size': lambda ex, st, a, k, n: ('size', a[0]),
+                        M + '.triplets.zip_ijv': lambda ex, st, a, k, n: st.load('%s.triplets.%s' % (M, a[0])),
+                        '<value>.ipadd': ipadd, 'spmatrix': spm, '__binop__': binop, 'logger.debug': lambda ex, st, a, k, n: None,
+                        'logger.error': lambda ex, st, a, k, n: None},
+                 globals_={'jac_names': JAC, 'spmatrix': Func('spmatrix')},
+                 loops={1: Loop(inv=[], frame=['$mdl', '$rows', '$cols', '$vals', M + '.*', 'ghost:acc', 'ghost:in_iter'] + mats),
+                        2: Loop(inv=[('each-triplet-accumulated-exactly-once', once)], assume=[('reset', reset)],
+                                frame=['$rows', '$cols', '$vals', 'ghost:acc', 'ghost:in_iter'] + mats)},
+                 ensures=[('model-values,restore-pattern,accumulate,island-patch-in-this-order', post)], modifies=mats)
+    c.merge = False
+
+    def pre_state(st):
+        st.ghost.pop('in_iter', None)
+    c.pre_state = pre_state
+    return c
+
+
+def dae_restore_sparse(pid):
+    """DAE.restore_sparse: each requested matrix is rebuilt from its own template (values, rows, columns, size)."""
+    out = []
+    for names in (None, 'gy'):
+        def spm(ex, st, args, kw, node):
+            return ('spm',) + tuple(args)
+
+        def store(ex, st, args, kw, node):
+            base, sl, value = args
+            key = ex.ev(sl, st) if isinstance(sl, ast.AST) else sl
+            ok = (isinstance(value, tuple) and len(value) == 6 and value[0] == 'spm' and isinstance(key, str)
+                  and all(isinstance(x, Opaque) for x in value[1:5])
+                  and all(x.term.eq(y.term) for x, y in zip(value[1:5], [st.load('tpl_%s.%s' % (key, f)) for f in ('V', 'I', 'J', 'size')]))
+                  and value[5] == 'd')
+            ex.oblige(st, 'pre@store:dae.<name>=spmatrix(tpl[<name>].V,.I,.J,.size)', z3.BoolVal(bool(ok)), {})
+            st.ghost['done'] = st.ghost['done'] + [key]
+            return None
+        want = list(JAC) if names is None else [names]
+        sch = {}
+        for j in JAC:
+            for f in ('V', 'I', 'J', 'size'):
+                sch['tpl_%s.%s' % (j, f)] = TOpaque('Tpl' + f)
+        c = Contract(FD, 'DAE.restore_sparse', pid=pid, params={'self': TObj(), 'names': TConst(names)}, schema=sch,
+                     ghost_init={'done': []}, calls={'spmatrix': spm, '__store__': store},
+                     globals_={'jac_names': JAC, 'spmatrix': Func('spmatrix'), 'str': Func('str')},
+                     ensures=[('exactly-the-requested-matrices-restored', lambda o, n, r, want=want: z3.BoolVal(n.st.ghost['done'] == want))],
+                     modifies=['self.*'])
+        c.merge = False
+        c.tag = str(names)
+
+        def pre_state(st):
+            st.heap['self.tpl'] = st.new_ref(DictC({j: Obj('tpl_' + j) for j in JAC}), 'tpl')
+        c.pre_state = pre_state
+        out.append(c)
+    return out
+
+
+def dae_build_pattern(pid):
+    """DAE.build_pattern: the template of <name> is built from the stored (values, rows, columns) of the same name with the
+    size of that name, and the live matrix is then restored from it; store_sparse_ijv files rows/cols/values under their own
+    keys."""
+    def spm(ex, st, args, kw, node):
+        return ('spm',) + tuple(args)
+
+    def post(old, new, res):
+        t = new.st.content(new.st.load('self.tpl')).items.get('gx')
+        ok = (isinstance(t, tuple) and len(t) == 6 and t[0] == 'spm' and t[1:4] == (('v', 'gx'), ('i', 'gx'), ('j', 'gx'))
+              and t[4] == ('size', 'gx') and t[5] == 'd')
+        return z3.BoolVal(bool(ok) and new.st.ghost['order'] == [('restore', 'gx')])
+    c = Contract(FD, 'DAE.build_pattern', pid=pid, params={'self': TObj(), 'name': TConst('gx')}, schema={},
+                 ghost_init={'order': []},
+                 calls={'spmatrix': spm, 'self.get_size': lambda ex, st, a, k, n: ('size', a[0]),
+                        'self.restore_sparse': lambda ex, st, a, k, n: st.ghost.__setitem__('order', st.ghost['order'] + [('restore', a[0])]),
+                        'logger.error': lambda ex, st, a, k, n: None},
+                 globals_={'spmatrix': Func('spmatrix')},
+                 ensures=[('tpl[name]=spmatrix(v[name],i[name],j[name],size(name));then-restore(name)', post)], modifies=['self.*'])
+    c.merge = False
+
+    def pre_state(st):
+        st.heap['self.tpl'] = st.new_ref(DictC({}), 'tpl')
+        for f, a in (('i', 'ijac'), ('j', 'jjac'), ('v', 'vjac')):
+            st.heap['self.triplets.' + a] = st.new_ref(DictC({j: (f, j) for j in JAC}), a)
+    c.pre_state = pre_state
+
+    def post2(old, new, res):
+        g = lambda a: new.st.content(new.st.load('self.triplets.' + a)).items.get('fy')     # noqa
+        return z3.BoolVal(g('ijac') is new.st.env['row'] and g('jjac') is new.st.env['col'] and g('vjac') is new.st.env['val'])
+    c2 = Contract(FD, 'DAE.store_sparse_ijv', pid=pid, params={'self': TObj(), 'name': TConst('fy'), 'row': TArr(kind='int'),
+                                                               'col': TArr(kind='int'), 'val': TArr()}, schema={},
+                  ensures=[('rows->ijac[name],cols->jjac[name],values->vjac[name]', post2)], modifies=['self.*'])
+
+    def pre_state2(st):
+        for a in ('ijac', 'jjac', 'vjac'):
+            st.heap['self.triplets.' + a] = st.new_ref(DictC({}), a)
+    c2.pre_state = pre_state2
+    return [c, c2]
+
+
+def j_islands(pid):
+    """System.j_islands (in-place mode): for islanded buses the angle and voltage diagonals of gy are set to diag_eps and their
+    cross terms to zero; nothing happens without islanded buses."""
+    def ipset(ex, st, args, kw, node):
+        base, val, rows, cols = args
+        gy = st.load('self.dae.gy')
+        nm = {st.load('self.Bus.islanded_a').loc: 'a', st.load('self.Bus.islanded_v').loc: 'v'}
+        ok = isinstance(base, Opaque) and base.term.eq(gy.term) and isinstance(rows, Ref) and isinstance(cols, Ref)
+        r, c_ = nm.get(rows.loc), nm.get(cols.loc)
+        eps = to_z3(st.load('self.config.diag_eps'))
+        good = z3.And(z3.BoolVal(bool(ok and r and c_)), to_z3(as_real(val).val) == (eps if r == c_ else 0))
+        ex.oblige(st, 'pre@call:gy.ipset(eps-on-diagonal|0-on-cross-terms)', good, {})
+        st.ghost['set'] = st.ghost['set'] + [(r, c_)]
+        return None
+
+    def post(old, new, res):
+        done = sorted(new.st.ghost['set'])
+        none = to_z3(old.get('self.Bus.n_islanded_buses')) == 0
+        return z3.If(none, z3.BoolVal(done == []), z3.BoolVal(done == [('a', 'a'), ('a', 'v'), ('v', 'a'), ('v', 'v')]))
+    c = Contract(FS, 'System.j_islands', pid=pid, params={'self': TObj()},
+                 schema={'self.Bus.n_islanded_buses': TInt(), 'self.Bus.islanded_a': TArr(kind='int'), 'self.Bus.islanded_v': TArr(kind='int'),
+                         'self.config.ipadd': TConst(True), 'self.config.diag_eps': TReal(), 'self.dae.gy': TOpaque('SparseMatrix')},
+                 ghost_init={'set': []}, calls={'<value>.ipset': ipset},
+                 ensures=[('diag=eps,cross=0-for-islanded-buses;no-op-otherwise', post)], modifies=[])
+    c.merge = False
+    return c
+
+
+def add_obligations(pack, ss, tier, pid='C03'):
+    pack.assume('System.j_islands is put under contract for the default in-place mode (config.ipadd=1) only')
+    pack.trust('kvxopt.spmatrix(V, I, J, size) builds the matrix with V[k] accumulated at (I[k], J[k]); ipadd/ipset add/set in place',
+               'hand-written j_numeric of a model or block appends to constant Jacobian names only (so position #idx of '
+               'triplets.vjac[<variable name>] is the idx-th generated entry); no stock model defines j_numeric')
+    items = [(model_j_update(pid),)] + [(c,) for c in jac_eq_var_name(pid)] + [(system_store_sparse_pattern(pid),), (model_store_sparse_pattern(pid),), (system_j_update(pid),), (j_islands(pid),)] + [(c,) for c in dae_restore_sparse(pid) + dae_build_pattern(pid)]
+    run_contracts(pack, items)
